@@ -26,6 +26,7 @@ RULE = ('1-D time-series files built through the public API: 1-200 records, '
 RULE += (' Also: integer time column, units with parentheses, an output path that earlier held a file of another format.')
 RULE += (" Missing code 0; a source whose header declares scale factors other than 1 (the writer's text with line 11 edited): the reader owes data x factor and a written copy must read back the same values.")
 RULE += (' One file in four is also stored as a netCDF file the way other tools store such series (values packed into short integers, missing cells by _FillValue only), opened as a plain netCDF file and written as ICARTT: what the netCDF file delivers must be read back.')
+RULE += (' A quarter of the columns are single precision, most of them with a missing code float32 cannot hold exactly (-999.9, -9999.99, 1e30).')
 ASSUMPTIONS = [
     'files carry one missing code per variable (fill_value == missing_value)',
     'values are compared to 7 significant digits (the %.6e text form)',
@@ -72,7 +73,18 @@ def gen(rng, idx, tier, seed):
             vars_[-1]['units'] = str(rng.choice(['W/(m2 sr)', 'ug/m3 (STP)',
                                                  'mol/(m2 s)']))
     ncom = int(rng.integers(0, 9))
-    return {'nrec': nrec, 'vars': vars_, 'seed': int(rng.integers(1 << 30)),
+    spec_seed = int(rng.integers(1 << 30))
+    r2 = np.random.default_rng([spec_seed, 191])
+    for vs in vars_:
+        if r2.random() < 0.25:
+            # a single-precision column (what a float netCDF variable
+            # becomes), with a missing code float32 cannot hold exactly
+            vs['dtype'] = 'f'
+            vs['mag'] = float(min(max(vs['mag'], 1e-25), 1e25))
+            if r2.random() < 0.7:
+                vs['code'] = float(r2.choice([-999.9, -9999.99, 1e30,
+                                              -8888.8]))
+    return {'nrec': nrec, 'vars': vars_, 'seed': spec_seed,
             'tpos': int(rng.integers(0, nvar + 1)) if rng.random() < 0.4
             else 0,
             'comments': [str(x) for x in rng.permutation(COMMENTS)[:ncom]],
@@ -124,7 +136,7 @@ def build(spec):
             m = np.ones(n, bool)
         else:
             m = rng.random(n) < 0.3
-        v = f.createVariable(vs['name'], 'd', ('POINTS',),
+        v = f.createVariable(vs['name'], vs.get('dtype', 'd'), ('POINTS',),
                              fill_value=float(vs['code']))
         v.units = vs['units']
         v.standard_name = vs['name']
